@@ -1069,7 +1069,12 @@ static void definedness_nonzero(const Real& b, const char* kind)
 Real operator/(const Real& a, const Real& b)
 {
     if (!a.id && !b.id)
+    {
+        // concrete replay: a division by exactly zero is the failure a definedness event predicted
+        if (g_concrete && b.c == 0.0)
+            P->events.push_back({"div0", "sat", site_from_backtrace(), scope_str(), "{\"_divisor\":0}"});
         return Real(a.c / b.c);
+    }
     if (!b.id && b.c == 1)
         return a;
     if (!b.id && b.c == -1)
